@@ -236,6 +236,18 @@ def run_case(ck, desc):
     mf = float(obj.m_scaled_func(p_f))
     if not (0 <= mf < 1):
         ck.violation("frac-face maps into [0,1)", {"p_f": p_f, "p_i": p_i, "m_scaled": mf}, desc)
+    # frac-face pressures BELOW the table's first row (a table that starts at 300 or 1000 psi): the
+    # transform either refuses them or still answers inside [0, 1) - never a negative value
+    for p_below in (float(P[0]) * 0.5, float(P[0]) * (1 - 1e-6), float(np.nextafter(P[0], -np.inf))):
+        try:
+            with np.errstate(all="ignore"):
+                mb = float(obj.m_scaled_func(p_below))
+        except Exception as e:  # noqa: BLE001
+            ck.count(f"frac_face_below_first_row.rejected.{type(e).__name__}")
+        else:
+            ck.count("frac_face_below_first_row.answered")
+            if not (0 <= mb < 1):
+                ck.violation("frac-face maps into [0,1)", {"p_f": p_below, "first_row": float(P[0]), "p_i": p_i, "m_scaled": mb}, desc)
     # initial pressure BETWEEN two table rows: 1 at p_i up to the interpolation error of 1/m, i.e.
     # 1 <= m_i <= (m_k + m_k+1)^2 / (4 m_k m_k+1) (C09's exact range), and m_scaled_func(p_i) = m_i
     kk = max(2, min(len(P) - 2, ki))
